@@ -311,5 +311,20 @@ def selftest(prop):
         bad[0]["stages"]["source-api"] = "error"   # later stages recorded as run although their input failed
         if run_trace(bad, "st_order") is not None:
             log("SELFTEST-FAIL %s: a run whose stages ran after a failed prerequisite was accepted" % prop); ok = False
+    if prop == "C15":
+        # binding of PackageExportTrace: a recorded export closure is accepted, the same record with one listed package removed is not
+        good = {"refs": [[["a.v1", ""], ["b.v1", "service"]]], "named": "a.v1", "listed": ["a.v1", "b.v1"], "indirect": ["b.v1"],
+                "exported": [["a.v1", ""], ["a.v1", "service"], ["a.v1", "topic"], ["b.v1", "service"]]}
+        lost = dict(good, listed=["a.v1"], indirect=[])
+
+        def closure_trace(evs, name):
+            path = os.path.join(chk.dir, name + ".ndjson")
+            vcheck.write_ndjson(path, evs)
+            tr = chk.tlc("PackageExportTrace.tla", "PackageExport_trace.cfg", name, workers=1, env={"VERIF_TRACE": path}, timeout=300)
+            return (not tr.violated) and any(t == "TRACEDONE" and o["events"] == len(evs) for (t, o) in tr.lines)
+        if not closure_trace([good], "pe_good"):
+            log("SELFTEST-FAIL %s: a correct export closure is not accepted by PackageExportTrace" % prop); ok = False
+        if closure_trace([good, lost], "pe_lost"):
+            log("SELFTEST-FAIL %s: an export that lost an indirect parent package is accepted by PackageExportTrace" % prop); ok = False
     log("SELFTEST %s %s" % ("ok" if ok else "FAILED", prop))
     return 0 if ok else 2
